@@ -32,8 +32,8 @@ class UnitResult:
         self.file = ""
 
 
-def assemble(unit, repo=None):
-    ex = Expander(repo)
+def assemble(unit, repo=None, vacuity=False):
+    ex = Expander(repo, vacuity=vacuity)
     ex.expand_unit(unit)
     return ex
 
@@ -61,7 +61,7 @@ def run_unit(unit, repo=None, rlimit=30, extra_args=None, variant=None, mutate=N
     res = UnitResult(unit)
     t0 = time.time()
     try:
-        ex = assemble(unit, repo)
+        ex = assemble(unit, repo, vacuity=(variant == "vacuity"))
     except LostAnchor as e:
         res.status = "undecided"
         res.reason = "lost anchor: %s" % e
